@@ -280,7 +280,7 @@ func init() {
 	register(&core.Check{
 		ID:    "C11",
 		Level: "exploration",
-		Rule: "run 0: the repository's two Intel sample quotes under the embedded root; every other run: one honest world from the tape (fresh PKI, platform, quote, TCB Info with the matching UpToDate level at a tape-chosen position, optional TDX-module branch, QE identity, CRLs of unrelated serials; auth-data length in {0,1,31,32,33,255,4096,65535,random}, optional extra bytes / trailing NUL / permuted SGX extension / five distinct instants) verified at 3 option levels x 3 quote forms, then a recovery phase: 1-3 faulted verifications (wire bit flip, endpoint down, clock +40y) through one shared options value followed by the honest quote. " +
+		Rule: "run 0: the repository's two Intel sample quotes under the embedded root; every other run: one honest world from the tape (fresh PKI, platform, quote, TCB Info with the matching UpToDate level at a tape-chosen position, optional TDX-module branch, QE identity, CRLs of unrelated serials; auth-data length in {0,1,31,32,33,255,4096,65535,random}, optional extra bytes / trailing NUL / permuted SGX extension / five distinct instants; issuer-chain headers in one of three equivalent URL encodings (%20, form encoding with +, lower-case hex); quote fields coinciding as on real TDs; authorityKeyIdentifier in key-id / absent / issuer+serial form) verified at 3 option levels x 3 quote forms, then a recovery phase: 1-3 faulted verifications (wire bit flip, endpoint down, clock +40y) through one shared options value followed by the honest quote. " +
 			"distinct = (auth bucket, extra, NUL, #levels, match index, module branch, module level, spread times, permuted ext)",
 		Assumptions: []string{
 			"Processor-CA chains are outside the claim (the code accepts only the Platform CA name; the property does not say a Processor-CA quote must be accepted)",
